@@ -70,6 +70,29 @@ class HooksMixin(object):
                             self.view.link(ca, pmid, cmid)
                             self.probe('hook_linked_many_to_many')
                             break
+            elif mode == 'after_edit' and event in ('after_insert', 'after_update'):
+                # an after_* hook edits ANOTHER object of the session (typically one saved in the same round whose
+                # own after_* hook has not run yet): that object's hook must still run, and the edit is saved by
+                # the next round of the same flush.  Only values already in memory are looked at (no query).
+                for mid2 in sorted(self.handles):
+                    h2 = self.handles[mid2]
+                    mo2 = self.view.objs.get(mid2)
+                    if h2 is obj or mo2 is None or mo2.deleted or h2._vals_ is None:
+                        continue
+                    if h2._status_ not in ('loaded', 'inserted', 'updated', 'modified'):
+                        continue
+                    done = False
+                    for (e2, attr), val in MARK.items():
+                        if e2 != mo2.ent:
+                            continue
+                        a2 = getattr(type(h2), attr)
+                        if a2 in h2._vals_ and h2._vals_[a2] != val:
+                            setattr(h2, attr, val)
+                            mo2.vals[attr] = val
+                            self.probe('after_hook_edited_other_object')
+                            done = True
+                    if done:
+                        break
             elif mode == 'create' and event == 'before_insert' and en in ('Person', 'Car'):
                 self.hook_counter = getattr(self, 'hook_counter', 0) + 1
                 msg = 'hook%d_%s' % (self.hook_counter, self.sess_index)
